@@ -17,11 +17,11 @@ SHAPE = {"s0": (), "s2": (2,), "s12": (1, 2), "s22": (2, 2), "s21": (2, 1), "s3"
 NPDT = {"f8": "float64", "f4": "float32", "i8": "int64", "i4": "int32", "b1": "bool", "u4": "uint32"}
 UNITSTR = {"1": "dimensionless", "m": "m", "cm": "cm", "km": "km", "s": "s", "min": "min", "g": "g", "kg": "kg", "m/s": "m/s", "km/h": "km/hour",
            "g/cm3": "g/cm**3", "kg/m3": "kg/m**3", "erg": "erg", "J": "J", "K": "K", "au": "au", "pc": "pc", "M_sun": "M_sun", "yr": "year",
-           "L_sun": "L_sun", "W": "W", "m2": "m**2", "cm3": "cm**3", "m/cm": "m/cm"}
+           "L_sun": "L_sun", "W": "W", "m2": "m**2", "cm3": "cm**3", "m/cm": "m/cm", "pc3": "pc**3", "au3": "au**3"}
 SPARSE = {"1": [], "m": [["m", 1]], "cm": [["cm", 1]], "km": [["km", 1]], "s": [["s", 1]], "min": [["min", 1]], "g": [["g", 1]], "kg": [["kg", 1]],
           "m/s": [["m", 1], ["s", -1]], "km/h": [["km", 1], ["h", -1]], "g/cm3": [["cm", -3], ["g", 1]], "kg/m3": [["m", -3], ["kg", 1]],
           "erg": [["erg", 1]], "J": [["J", 1]], "K": [["K", 1]], "au": [["au", 1]], "pc": [["pc", 1]], "M_sun": [["M_sun", 1]], "yr": [["yr", 1]],
-          "L_sun": [["L_sun", 1]], "W": [["W", 1]], "m2": [["m", 2]], "cm3": [["cm", 3]], "m/cm": [["cm", -1], ["m", 1]]}
+          "L_sun": [["L_sun", 1]], "W": [["W", 1]], "m2": [["m", 2]], "cm3": [["cm", 3]], "m/cm": [["cm", -1], ["m", 1]], "pc3": [["pc", 3]], "au3": [["au", 3]]}
 # relative tolerance of the accepted value of astrophysical units (different sources differ at that level)
 UNIT_TOL = {"M_sun": 5e-3, "M_earth": 5e-3, "M_jup": 5e-3, "R_sun": 5e-3, "R_earth": 5e-3, "R_jup": 5e-3, "ar": 1e-4, "pc": 1e-9, "L_sun": 1e-12, "au": 1e-12, "yr": 1e-12}
 EPS = {"f8": 2.3e-16, "f4": 1.2e-7, "i8": 2.3e-16, "i4": 2.3e-16, "b1": 0, "u4": 2.3e-16}
